@@ -66,7 +66,9 @@ def judge_c01(rec):
             frm, to = e[1], e[2]
             if first_state:
                 first_state = False
-                if (frm, to) != (None, 'created'):
+                if rec['case'].get('recreate') and frm == 'created':
+                    pass  # a process recreated from the checkpoint of a CREATED process: observed from there on
+                elif (frm, to) != (None, 'created'):
                     out.append(V('bad-initial', 'bad-initial:%s->%s' % (frm, to), 'first transition %s -> %s' % (frm, to)))
             elif frm != cur:
                 out.append(V('hook-gap', 'hook-gap:%s!=%s' % (frm, cur), 'ENTERED_STATE from=%s but last entered %s' % (frm, cur)))
@@ -99,6 +101,18 @@ def judge_c01(rec):
                                  'recorded outcome of terminal state %s changed from %s to %s after %s' % (state, sampled_fp[1], fp, cause)))
                 sampled_fp = (state, fp)
     fin = rec.get('final')
+    if terminal is None:
+        # no ENTERED_STATE for a terminal state -- but the listeners may have been told about one (they are told from the
+        # entering hook, just before)
+        for e in rec['events']:
+            if isinstance(e[0], str) and e[0].startswith('listener') and e[1] in TERMINAL:
+                terminal = e[1]
+                break
+    if fin is not None and terminal is not None and fin['state'] != terminal and not any(v['kind'] == 'terminal-changed' for v in out):
+        # the terminal state the observers were told about was never seen by a sample: it was left again within the very transition
+        # that entered it (and after the state callbacks had been dropped at close)
+        out.append(V('terminal-changed', 'terminal-changed:%s->%s:within-transition' % (terminal, fin['state']),
+                     'the process entered the terminal state %s (ENTERED_STATE was announced) and ended in %s' % (terminal, fin['state'])))
     if fin is not None and sampled is not None and fin['state'] != sampled:
         if sampled in TERMINAL:
             out.append(V('terminal-changed', 'terminal-changed:%s->%s:after=end' % (sampled, fin['state']),
